@@ -143,16 +143,16 @@ class World(object):
         return (self.db.snapshot(), tuple(insts))
 
     # ------------------------------------------------------------ oracles
-    def check_instances(self, opname):
+    def check_instances(self, opname, sent=()):
         for slot in ('X', 'Y', 'Z'):
             if self.inst[slot] is None or not self.sync[slot]:
                 continue
             iv, rv = self.inst_view(slot), self.row_view(slot)
             if iv != rv:
                 bad = sorted(c for c in iv if iv[c] != rv[c])
-                raise Violation('C35/readback/%s/%s' % (opname, ','.join(bad)),
-                                'after %s the instance %s has %r but the row read back has %r (columns %s differ)' % (
-                                    opname, slot, dict((c, iv[c]) for c in bad), dict((c, rv[c]) for c in bad), bad))
+                raise Violation('C35/readback/%s/%s' % (','.join(bad), '+'.join(sent) or 'nothing-sent'),
+                                'after %s the instance %s has %r but the row read back has %r (columns %s differ; the step sent %s)' % (
+                                    opname, slot, dict((c, iv[c]) for c in bad), dict((c, rv[c]) for c in bad), bad, list(sent) or 'no statement'))
 
     def others_unchanged(self, before, touched, opname, static_may_change):
         for slot in ('X', 'Y', 'Z'):
@@ -250,13 +250,19 @@ MUTATIONS = [
     ('m=empty', lambda i: bool(i.m), lambda i: setattr(i, 'm', {}), False),
     ('m={7:70}', lambda i: i.m != {7: 70}, lambda i: setattr(i, 'm', {7: 70}), False),
     ('m=None', lambda i: bool(i.m), lambda i: setattr(i, 'm', None), False),
+    ('s={1,2}', lambda i: i.s != {1, 2}, lambda i: setattr(i, 's', {1, 2}), False),
+    ('l=[1,2]', lambda i: i.l != [1, 2], lambda i: setattr(i, 'l', [1, 2]), False),
+    ('m={1:10,2:20}', lambda i: i.m != {1: 10, 2: 20}, lambda i: setattr(i, 'm', {1: 10, 2: 20}), False),
+    ('s={1}', lambda i: i.s != {1}, lambda i: setattr(i, 's', {1}), False),
+    ('l=[1]', lambda i: i.l != [1], lambda i: setattr(i, 'l', [1]), False),
+    ('m={1:10}', lambda i: i.m != {1: 10}, lambda i: setattr(i, 'm', {1: 10}), False),
     ('combo', lambda i: True,
      lambda i: (setattr(i, 'v', None), i.s.add(4), i.l.append(4), i.m.pop(2, None), i.m.__setitem__(5, 50)), False),
     ('combo-static', lambda i: True,
      lambda i: (setattr(i, 'st', 'k'), setattr(i, 'v', 6), i.m.pop(1, None)), True),
 ]
 QUICK_MUT_SAVE = {'v=7', 'v=None', 'st=b', 'st=None', 's.add3', 's.discard1', 's=empty', 'l.append3', 'l.prepend0', 'l.pop',
-                  'l=empty', 'm[3]=30', 'del m[1]', 'm=empty', 'combo'}
+                  'l=empty', 'm[3]=30', 'del m[1]', 'm=empty', 'combo', 's={1,2}', 'l=[1,2]', 'm={1:10,2:20}', 's={1}', 'l=[1]', 'm={1:10}'}
 QUICK_MUT_UPDATE = {'v=None', 's.add3', 'combo', 'm={7:70}', 'l.both'}
 
 
@@ -438,8 +444,10 @@ QS_UPDATES = [
     ('m__remove=empty', {'m__remove': set()}, [], False, True),
     ('m={7:70}', {'m': {7: 70}}, [_eff_assign('m', {7: 70})], False, True),
     ('m=empty', {'m': {}}, [_eff_assign('m', None)], False, False),
-    ('mixed', {'v': 2, 's__add': {6}, 'l__prepend': [6], 'm__update': {6: 60}, 'st': None},
-     [_eff_assign('v', 2), _eff_set_add('s', {6}), _eff_prepend('l', [6]), _eff_map_update('m', {6: 60}), _eff_assign('st', None)], True, True),
+    ('mixed', {'v': 2, 's__add': {6}, 'l__prepend': [6], 'm__update': {6: 60}, 'st': 'w'},
+     [_eff_assign('v', 2), _eff_set_add('s', {6}), _eff_prepend('l', [6]), _eff_map_update('m', {6: 60}), _eff_assign('st', 'w')], True, True),
+    ('mixed-nulls', {'v': None, 's__remove': {2}, 'l': None, 'm__update': {2: 22}},
+     [_eff_assign('v', None), _eff_set_remove('s', {2}), _eff_assign('l', None), _eff_map_update('m', {2: 22})], False, True),
 ]
 
 
@@ -452,7 +460,11 @@ def op_qs_update(slot, spec):
         expected = dict(before[slot])
         for e in effects:
             e(expected)
-        w.R.objects.filter(pk=pk, ck=ck).update(**kwargs)
+        if all(k.split('__')[0] == 'st' for k in kwargs):
+            # an UPDATE/DELETE of static columns only must address the partition, not a row
+            w.R.objects.filter(pk=pk).update(**kwargs)
+        else:
+            w.R.objects.filter(pk=pk, ck=ck).update(**kwargs)
         for s in ('X', 'Y'):
             if w.inst[s] is not None and (s == slot or static):
                 w.sync[s] = False
@@ -507,6 +519,7 @@ def op_batch(label, steps):
                 pk, ck = KEYS[slot]
                 if kind == 'create':
                     w.inst[slot] = w.R.batch(b).create(pk=pk, ck=ck, **arg)
+                    w.inst[slot].batch(None)        # the documented pattern always passes the batch explicitly
                     w.sync[slot] = True
                 elif kind == 'mutate':
                     m = [x for x in MUTATIONS if x[0] == arg][0]
@@ -554,10 +567,12 @@ def op_counter(label):
 
 
 def alphabet(quick):
+    models()
     ops = []
     full = {'v': 1, 's': {1, 2}, 'l': [1, 2], 'm': {1: 10, 2: 20}, 'st': 'a'}
     ops.append(op_create('X', 'min', {}, False))
     ops.append(op_create('X', 'full', full, True))
+    ops.append(op_create('X', 'one', {'v': 1, 's': {1}, 'l': [1], 'm': {1: 10}}, False))
     ops.append(op_create('X', 'nulls', {'v': None, 's': set(), 'l': [], 'm': {}, 'st': None}, True))
     ops.append(op_create_ine('X'))
     for mut in MUTATIONS:
@@ -610,14 +625,16 @@ def execute(ops, seq):
     w = World()
     for k, oi in enumerate(seq):
         name, fn = ops[oi]
+        nlog = len(w.backend.log)
         try:
             if fn(w) is False:
                 return w, ('disabled', k)
-            w.check_instances(strip_slot(name))
+            w.check_instances(strip_slot(name), tuple(q.split()[0] for q, _, _ in w.backend.log[nlog:]))
         except Violation as v:
             return w, ('violation', k, v.fp, v.what)
         except mq.InvalidRequest as e:
-            return w, ('violation', k, 'C35/invalid-cql/%s' % strip_slot(name),
+            last = w.session.calls[-1].query.split()[0] if w.session.calls else '?'
+            return w, ('violation', k, 'C35/invalid-cql/%s/%s' % (last, '-'.join(str(e).lower().split()[:4])),
                        'cqlengine sent CQL that Cassandra rejects during %s: %s; statements: %r' % (name, e, [c.query for c in w.session.calls[-3:]]))
         except (mq.Unsupported, mq.ParseError) as e:
             raise HarnessError('interpreter cannot execute what cqlengine sent during %s (%r): %r' % (name, e, [c.query for c in w.session.calls[-3:]]))
@@ -662,13 +679,13 @@ def expand(ops, seq, part, seen, frontier_out, order):
         if h in seen:
             continue
         seen.add(h)
-        part.count('states')
         frontier_out.append(s2)
         part.sample({'trace': names, 'statements': [q for q, _, _ in w.backend.log][-4:], 'rows': {'X': repr(w.row_view('X')), 'Y': repr(w.row_view('Y'))}}, limit=1)
 
 
 def run_subtree(args):
-    quick, seqs, depth, order = args
+    import time
+    quick, seqs, depth, order, deadline = args
     ops = alphabet(quick)
     part = Part()
     seen = set()
@@ -676,7 +693,12 @@ def run_subtree(args):
     level = len(frontier[0]) if frontier else 0
     while frontier and level < depth:
         nxt = []
-        for seq in frontier:
+        for n, seq in enumerate(frontier):
+            if deadline and time.time() > deadline:
+                part.count('capped_unexpanded_states_at_depth_%d_%s_alphabet' % (level + 1, 'quick' if quick else 'full'), len(frontier) - n)
+                part.count('capped_expanded_states_at_depth_%d_%s_alphabet' % (level + 1, 'quick' if quick else 'full'), n)
+                part.hashes = seen
+                return part
             expand(ops, seq, part, seen, nxt, order)
         frontier = nxt
         level += 1
@@ -684,52 +706,65 @@ def run_subtree(args):
     return part
 
 
-def run(ctx):
-    m = models()
-    m['minicql'].selftest()
-    quick = ctx.quick
-    ops = alphabet(quick)
-    depth = 3 if quick else 5
+def search(ctx, quick_alphabet, depth, all_hashes, deadline):
+    ops = alphabet(quick_alphabet)
     order = ctx.rotate(list(range(len(ops))))
     split_level = 2
     # levels 1..split_level in this process (global dedup), the rest in parallel per subtree
     part = Part()
     seen = set()
-    w0 = World()
-    seen.add(hash(w0.canon()))
-    part.count('states')
+    seen.add(hash(World().canon()))
     frontier = [()]
     for level in range(min(split_level, depth)):
         nxt = []
         for seq in frontier:
             expand(ops, seq, part, seen, nxt, order)
         frontier = nxt
+    part.counters.pop('states', None)
     ctx.merge(part)
-    all_hashes = set(seen)
+    all_hashes |= seen
     if depth > split_level and frontier:
-        n = ctx.nproc * 4
+        n = ctx.nproc * 8
         chunks = [frontier[i::n] for i in range(n)]
-        results = ctx.pmap(run_subtree, [(quick, c, depth, order) for c in chunks if c])
+        results = ctx.pmap(run_subtree, [(quick_alphabet, c, depth, order, deadline) for c in chunks if c])
         for p in results:
-            # states found in several subtrees are counted once
-            new = p.hashes - all_hashes
-            dup = len(p.hashes) - len(new)
-            all_hashes |= new
-            p.counters['states'] = p.counters.get('states', 0) - dup
+            all_hashes |= p.hashes
+            p.counters.pop('states', None)     # states are counted once, over all subtrees and searches
             ctx.merge(p)
-    ctx.count('alphabet', len(ops))
-    ctx.cov['states'] = len(all_hashes)
-    ctx.cov['rule'] = ('alphabet of %d operations (%s ...), every enabled sequence to depth %d; a state (canonical table content + instance '
-                       'values/previous values/explicit flags/sync flags) is expanded once (globally up to depth %d, per worker subtree below); '
-                       'executions = sequences run on the real cqlengine code from an empty table; evaluations = steps executed and judged; '
-                       'non-trivial = a sequence of at least two steps in which at least two statements reached the interpreter'
-                       % (len(ops), ', '.join(n for n, _ in ops[:6]), depth, split_level))
-    ctx.cov['exhaustive'] = True
+    return len(ops)
+
+
+def run(ctx):
+    import time
+    m = models()
+    m['minicql'].selftest()
+    all_hashes = set()
+    if ctx.quick:
+        plan = [(True, 3)]
+    else:
+        plan = [(False, 4), (True, 5)]
+    deadline = None if ctx.quick else time.time() + 540
+    sizes = []
+    for quick_alphabet, depth in plan:
+        sizes.append((search(ctx, quick_alphabet, depth, all_hashes, deadline), depth))
+    ctx.count('states', len(all_hashes))
+    capped = sorted(k for k in ctx.counters if k.startswith('capped_unexpanded'))
+    if capped:
+        ctx.cap('wall-clock budget (540 s) reached: %s; every shallower level of each search is complete' % '; '.join(
+            '%s = %d (expanded there: %d)' % (k, ctx.counters[k], ctx.counters.get(k.replace('unexpanded', 'expanded'), 0)) for k in capped))
+    ctx.cov['rule'] = ('searches (alphabet size, depth): %r; operations: %s; every enabled sequence up to the depth is executed from an empty table on the '
+                       'real cqlengine code; a state (canonical table content + per instance values / previous values / explicit flags / sync flag) is '
+                       'expanded once (globally up to depth 2, per worker subtree below; the state count is the union); executions = sequences; '
+                       'evaluations = steps executed and judged; non-trivial = a sequence of at least two steps in which at least two statements '
+                       'reached the interpreter' % (sizes, ', '.join(n for n, _ in alphabet(not ctx.thorough))))
+    ctx.cov['exhaustive'] = not ctx.caps_hit
     for a in ASSUMPTIONS:
         ctx.assume(a)
 
 
 ASSUMPTIONS = [
+    'an instance keeps the BatchQuery it was last given; the harness detaches it (batch(None)) once the batch has run, as the documented pattern passes the batch explicitly each time',
+    'query-set updates of static columns only address the partition (filter(pk=..)); nulling a static column together with regular columns through a (pk, ck) filter is not generated',
     'S1 INSERT/UPDATE are upserts; INSERT writes a row marker, UPDATE does not; a row exists iff marker or a live cell',
     'S2 null deletes the cell; an empty set/list/map is null',
     'S3 columns not named by a statement keep their value',
